@@ -8,7 +8,10 @@ func init() {
 		if q <= 2 {
 			l = &quick
 		}
-		*l = append(*l, &Job{Pkg: "", Func: "ZZ_C18_NonBlockingExact", Args: []int64{q, q}, Bounds: b})
+		*l = append(*l, &Job{Pkg: "", Func: "ZZ_C18_NonBlockingExact", Args: []int64{q, q, 0}, Bounds: b})
+		for e := int64(0); e < 8; e++ { // every entry point is the one that meets the full queue, with a deadline / cancellable context
+			*l = append(*l, &Job{Pkg: "", Func: "ZZ_C18_NonBlockingExact", Args: []int64{q, e, 1 + e%2}, Bounds: b + "; the caller's context has a far deadline or is cancellable (never cancelled)"})
+		}
 		*l = append(*l, &Job{Pkg: "", Func: "ZZ_C18_NonBlockingLive", Args: []int64{q, 2, 1*8 + 0}, Bounds: b})
 		thorough = append(thorough, &Job{Pkg: "", Func: "ZZ_C18_NonBlockingLive", Args: []int64{q, 3, 2*64 + 1*8 + 0}, Bounds: b})
 		for sc := int64(0); sc < 4; sc++ {
